@@ -37,14 +37,16 @@ CONSTANTS Kinds,     \* subset of {"remote", "lmtp"}
           MaxList, MaxTxns,
           DataSet,   \* results of the DATA stage explored
           DropSet,   \* LMTP: numbers of per-recipient answers after which the connection may break
+          SrcSet,    \* body source / transfer faults: "ok", "noopen", "readfail", "reset"
+          LateSet,   \* list positions whose RCPT reply may arrive only after command_timeout (0 = never)
           Devs, Gen
 
-VARIABLES cfg, k, pc, lst, plan, idx, acc, used, touched, pooled, rec, devs, obs, hist
+VARIABLES cfg, k, pc, lst, plan, idx, acc, used, touched, dead, pooled, rec, devs, obs, hist
 
-vars == <<cfg, k, pc, lst, plan, idx, acc, used, touched, pooled, rec, devs, obs, hist>>
+vars == <<cfg, k, pc, lst, plan, idx, acc, used, touched, dead, pooled, rec, devs, obs, hist>>
 (* the transaction counter is not part of the view: what a further transaction  *)
 (* can do depends only on the connection cache                                   *)
-View == <<cfg, pc, lst, plan, idx, acc, used, touched, pooled, rec, devs, obs.acc, obs.plan, obs.viol>>
+View == <<cfg, pc, lst, plan, idx, acc, used, touched, dead, pooled, rec, devs, obs.acc, obs.plan, obs.viol>>
 
 NoneD == [d \in Doms |-> FALSE]
 EmptyD == [d \in Doms |-> <<>>]
@@ -59,17 +61,23 @@ Plans(kind, l) ==
       DS == IF kind = "lmtp" THEN {"D1"} ELSE {Dom(r) : r \in RS}
       StS == IF kind = "lmtp" THEN [RS -> {"ok", "temp", "perm"}] ELSE {<<>>}
       DrS == IF kind = "lmtp" THEN (DropSet \cap (0..(Len(l) - 1))) \cup {NoDrop} ELSE {NoDrop}
-  IN { [mail |-> Ext(m, Doms, "ok"), rcpt |-> Ext(rc, Given, "ok"),
-        data |-> Ext(da, Doms, "ok"), st |-> Ext(s, Given, "ok"), drop |-> dr] :
-         m \in [DS -> {"ok", "temp"}], rc \in [RS -> {"ok", "perm"}], da \in [DS -> DataSet], s \in StS,
-         dr \in DrS }
+      base == { [mail |-> Ext(m, Doms, "ok"), rcpt |-> Ext(rc, Given, "ok"),
+                 data |-> Ext(da, Doms, "ok"), st |-> Ext(s, Given, "ok"), drop |-> dr, src |-> "ok", late |-> 0] :
+                  m \in [DS -> {"ok", "temp"}], rc \in [RS -> {"ok", "perm"}], da \in [DS -> DataSet], s \in StS,
+                  dr \in DrS }
+      \* transport faults are explored on top of plans whose MAIL / DATA replies are positive
+      clean == { [mail |-> [d \in Doms |-> "ok"], rcpt |-> Ext(rc, Given, "ok"), data |-> [d \in Doms |-> "ok"],
+                  st |-> Ext(s, Given, "ok"), drop |-> NoDrop, src |-> "ok", late |-> 0] :
+                   rc \in [RS -> {"ok", "perm"}], s \in StS }
+  IN base \cup {[p EXCEPT !.src = x] : p \in clean, x \in SrcSet \ {"ok"}}
+          \cup {[p EXCEPT !.late = n] : p \in clean, n \in LateSet \cap (1..Len(l))}
 
 H(e) == IF Gen THEN Append(hist, e) ELSE hist
 
 InitWith(c) ==
   /\ cfg = c
   /\ k = 0 /\ pc = "idle" /\ lst = <<>> /\ plan = <<>> /\ idx = 0
-  /\ acc = EmptyD /\ used = NoneD /\ touched = NoneD /\ pooled = NoneD /\ rec = EmptyD
+  /\ acc = EmptyD /\ used = NoneD /\ touched = NoneD /\ dead = NoneD /\ pooled = NoneD /\ rec = EmptyD
   /\ devs = {} /\ obs = ObsInit /\ hist = <<>>
 
 Init == \E kd \in Kinds, u \in BOOLEAN : InitWith([kind |-> kd, utf8 |-> u])
@@ -81,7 +89,7 @@ LKey(D, r) == IF "LMTPWireKey" \in D THEN Conv(r, cfg.utf8) ELSE r
 TxnStart(l, p) ==
   /\ pc = "idle" /\ k < MaxTxns
   /\ lst' = l /\ plan' = p /\ idx' = 1
-  /\ acc' = EmptyD /\ used' = NoneD /\ touched' = NoneD
+  /\ acc' = EmptyD /\ used' = NoneD /\ touched' = NoneD /\ dead' = NoneD
   /\ pc' = IF cfg.kind = "lmtp" THEN "start" ELSE "rcpt"
   /\ obs' = ObsTxn(obs, p)
   /\ hist' = H([rcpts |-> l, plan |-> p])
@@ -91,12 +99,12 @@ TxnStart(l, p) ==
 ChooseList(l) ==
   /\ pc = "idle" /\ k < MaxTxns
   /\ lst' = l /\ pc' = "plan"
-  /\ UNCHANGED <<cfg, k, plan, idx, acc, used, touched, pooled, rec, devs, obs, hist>>
+  /\ UNCHANGED <<cfg, k, plan, idx, acc, used, touched, dead, pooled, rec, devs, obs, hist>>
 
 ChoosePlan(p) ==
   /\ pc = "plan"
   /\ plan' = p /\ idx' = 1
-  /\ acc' = EmptyD /\ used' = NoneD /\ touched' = NoneD
+  /\ acc' = EmptyD /\ used' = NoneD /\ touched' = NoneD /\ dead' = NoneD
   /\ pc' = IF cfg.kind = "lmtp" THEN "start" ELSE "rcpt"
   /\ obs' = ObsTxn(obs, p)
   /\ hist' = H([rcpts |-> lst, plan |-> p])
@@ -107,12 +115,18 @@ LmtpStart(res) ==
   /\ pc = "start" /\ res = plan.mail["D1"]
   /\ IF res = "ok" THEN pc' = "rcpt" /\ UNCHANGED <<k, lst, plan, idx, obs>>
      ELSE pc' = "idle" /\ k' = k + 1 /\ lst' = <<>> /\ plan' = <<>> /\ idx' = 0 /\ obs' = ObsTxnEnd(obs)
-  /\ UNCHANGED <<cfg, acc, used, touched, pooled, rec, devs, hist>>
+  /\ UNCHANGED <<cfg, acc, used, touched, dead, pooled, rec, devs, hist>>
 
+RcptD(r) == IF cfg.kind = "lmtp" THEN "D1" ELSE Dom(r)
+(* the RCPT command for list position idx goes out and its reply comes too late *)
+IsLate(r) == plan.late = idx /\ ~dead[RcptD(r)] /\ ~(r = "nl" /\ ~cfg.utf8)
+             /\ (cfg.kind = "lmtp" \/ used[Dom(r)] \/ plan.mail[Dom(r)] = "ok")
 RcptRes(r) ==
   LET d == Dom(r) IN
   IF cfg.kind = "remote" /\ ~used[d] /\ plan.mail[d] = "temp" THEN "temp"   \* connectionForDomain: MAIL refused
   ELSE IF r = "nl" /\ ~cfg.utf8 THEN "perm"                                  \* cannot be converted
+  ELSE IF dead[RcptD(r)] THEN "temp"                                         \* the connection was closed
+  ELSE IF IsLate(r) THEN "temp"                                              \* time-out: smtpconn closes the connection
   ELSE plan.rcpt[r]
 
 AddRcpt(r, res) ==
@@ -121,6 +135,7 @@ AddRcpt(r, res) ==
        /\ touched' = [touched EXCEPT ![d] = TRUE]
        /\ used' = [used EXCEPT ![d] = @ \/ cfg.kind = "lmtp" \/ plan.mail[d] = "ok"]
        /\ acc' = IF res = "ok" THEN [acc EXCEPT ![d] = Append(@, r)] ELSE acc
+       /\ dead' = IF IsLate(r) THEN [dead EXCEPT ![d] = TRUE] ELSE dead
   /\ idx' = idx + 1
   /\ obs' = ObsAddRcpt(obs, r, res)
   /\ UNCHANGED <<cfg, k, pc, lst, plan, pooled, rec, devs, hist>>
@@ -132,42 +147,51 @@ Recorded(D, d) ==
   (IF "RcptNotCleared" \in D /\ pooled[d] THEN rec[d] ELSE <<>>)
     \o [i \in 1..Len(acc[d]) |-> Key(D, acc[d][i])]
 
-(* statuses of one remote connection: the DATA result for every recorded recipient; *)
-(* DATA without any accepted recipient is refused by the next hop                    *)
+(* the transfer over the connection for d does not complete: the body cannot be opened / read,   *)
+(* the next hop resets the connection in mid-DATA, or the connection was closed after a time-out *)
+Broken(d) == plan.src # "ok" \/ dead[d]
+
+(* statuses of one remote connection: the DATA result for every recorded recipient ("fail": some *)
+(* failure, its class is the transport's business); DATA without any accepted recipient is       *)
+(* refused by the next hop                                                                        *)
 ConnStatuses(D, d) ==
-  LET v == IF acc[d] = <<>> THEN "perm" ELSE plan.data[d]
+  LET v == IF Broken(d) THEN "fail" ELSE IF acc[d] = <<>> THEN "perm" ELSE plan.data[d]
       r == Recorded(D, d) IN
   IF used[d] THEN [i \in 1..Len(r) |-> [k |-> r[i], v |-> v]] ELSE <<>>
 
-(* after `drop` answers the connection breaks: the remaining recipients get the I/O *)
-(* error (no temporary/permanent marker: reported class "perm"), under the address   *)
-(* as given                                                                           *)
+(* after `drop` answers the connection breaks: the remaining recipients get the I/O error, under *)
+(* the address as given                                                                           *)
 LmtpStatuses(D) ==
   LET a == acc["D1"] IN
-  IF plan.data["D1"] # "ok"
+  IF Broken("D1") THEN [i \in 1..Len(a) |-> [k |-> a[i], v |-> "fail"]]
+  ELSE IF plan.data["D1"] # "ok"
   THEN [i \in 1..Len(a) |-> [k |-> a[i], v |-> plan.data["D1"]]]
   ELSE [i \in 1..Len(a) |-> IF i <= plan.drop THEN [k |-> LKey(D, a[i]), v |-> plan.st[a[i]]]
-                                               ELSE [k |-> a[i], v |-> "perm"]]
+                                               ELSE [k |-> a[i], v |-> "fail"]]
 
 Exp(D) == IF cfg.kind = "lmtp" THEN LmtpStatuses(D) ELSE ConnStatuses(D, "D1") \o ConnStatuses(D, "D2")
 Expected == Exp(Devs)
 
 SameBag(a, b) == /\ Len(a) = Len(b)
                  /\ \A x \in ToSet(a) \cup ToSet(b) : Count(a, x) = Count(b, x)
+(* where the design only says "some failure", any failure class reported matches *)
+Norm(sts, e) == [i \in 1..Len(sts) |->
+                  IF sts[i].v # "ok" /\ \E j \in 1..Len(e) : e[j].k = sts[i].k /\ e[j].v = "fail"
+                  THEN [k |-> sts[i].k, v |-> "fail"] ELSE sts[i]]
 
 (* BodyNonAtomic: connections deliver in parallel, only the bag of statuses is determined *)
 Body(sts) ==
   /\ pc = "rcpt" /\ idx > Len(lst) /\ AnyAccepted
-  /\ SameBag(sts, Expected)
+  /\ SameBag(Norm(sts, Expected), Norm(Expected, Expected))
   /\ obs' = ObsStatuses(obs, cfg.kind, sts)
   /\ devs' = devs \cup {dv \in Devs : ~SameBag(Exp(Devs \ {dv}), Expected)}
   /\ pc' = "end"
-  /\ UNCHANGED <<cfg, k, lst, plan, idx, acc, used, touched, pooled, rec, hist>>
+  /\ UNCHANGED <<cfg, k, lst, plan, idx, acc, used, touched, dead, pooled, rec, hist>>
 
 NoBody ==
   /\ pc = "rcpt" /\ idx > Len(lst) /\ ~AnyAccepted
   /\ pc' = "end"
-  /\ UNCHANGED <<cfg, k, lst, plan, idx, acc, used, touched, pooled, rec, devs, obs, hist>>
+  /\ UNCHANGED <<cfg, k, lst, plan, idx, acc, used, touched, dead, pooled, rec, devs, obs, hist>>
 
 (* Commit / Abort: remoteDelivery.Close returns usable connections to the cache *)
 TxnEnd ==
@@ -175,6 +199,8 @@ TxnEnd ==
   /\ LET ran == AnyAccepted
          keep(d) == IF ~touched[d] THEN pooled[d]
                     ELSE IF ~used[d] THEN FALSE                       \* MAIL refused: closed
+                    ELSE IF dead[d] \/ plan.src \in {"readfail", "reset"} THEN FALSE
+                    ELSE IF ran /\ plan.src = "noopen" THEN TRUE        \* nothing was sent: RSET, cached
                     ELSE IF ran THEN acc[d] # <<>> /\ plan.data[d] = "ok"
                     ELSE TRUE                                          \* aborted before DATA: RSET, cached
      IN /\ pooled' = IF cfg.kind = "lmtp" THEN NoneD ELSE [d \in Doms |-> keep(d)]
@@ -182,7 +208,7 @@ TxnEnd ==
                   ELSE [d \in Doms |-> IF ~keep(d) THEN <<>>
                                        ELSE IF touched[d] THEN Recorded(Devs, d) ELSE rec[d]]
   /\ k' = k + 1 /\ pc' = "idle"
-  /\ lst' = <<>> /\ plan' = <<>> /\ idx' = 0 /\ acc' = EmptyD /\ used' = NoneD /\ touched' = NoneD
+  /\ lst' = <<>> /\ plan' = <<>> /\ idx' = 0 /\ acc' = EmptyD /\ used' = NoneD /\ touched' = NoneD /\ dead' = NoneD
   /\ obs' = ObsTxnEnd(obs)
   /\ UNCHANGED <<cfg, devs, hist>>
 
@@ -190,7 +216,7 @@ Finish ==
   /\ pc = "idle" /\ k >= 1 /\ (Gen => k = MaxTxns)
   /\ pc' = "fin"
   /\ IF Gen THEN PrintT(<<"BEH", ToJson([cfg |-> cfg, txns |-> hist])>>) ELSE TRUE
-  /\ UNCHANGED <<cfg, k, lst, plan, idx, acc, used, touched, pooled, rec, devs, obs, hist>>
+  /\ UNCHANGED <<cfg, k, lst, plan, idx, acc, used, touched, dead, pooled, rec, devs, obs, hist>>
 
 Silent == NoBody
 
